@@ -112,11 +112,18 @@ pub fn frames_program(rng: &mut Rng) -> (String, Vec<(String, String)>) {
     let (k, tag) = *rng.pick(&FRAME_KINDS);
     let lit = |n: u64| format!("{k}#{n}");
     let mut src = String::new();
+    // one case in three: the initialisers of the frame-local declarations (FB VAR_TEMP, FUNCTION
+    // VAR, PROGRAM VAR_TEMP) divide by an input / a variable that reaches 0 — a value-dependent
+    // fault raised while the frame is being set up; the frame must still be popped
+    let faulty_init = rng.chance(1, 3);
+    let tt_init = if faulty_init { format!("{} / d", lit(10)) } else { lit(1) };
+    let acc_init = if faulty_init { format!("{} / a", lit(10)) } else { format!("a + {}", lit(1)) };
+    let tq_init = if faulty_init { format!("{} / dz", lit(30)) } else { lit(3) };
     let _ = writeln!(src, "TYPE Pair : STRUCT lo : {k}; hi : {k}; END_STRUCT END_TYPE\n");
     // a block with state, a VAR_TEMP scalar with an initialiser and a VAR_TEMP array
     let _ = writeln!(
         src,
-        "FUNCTION_BLOCK Acc\nVAR_INPUT d : {k}; END_VAR\nVAR_OUTPUT q : {k}; END_VAR\nVAR_IN_OUT io : {k}; END_VAR\nVAR s : {k}; END_VAR\nVAR_TEMP tt : {k} := {one}; ta : ARRAY[0..2] OF {k}; END_VAR\nta[1] := d;\ns := (s + ta[1]) MOD {m};\nq := s + tt;\nio := (io + {one}) MOD {m};\nEND_FUNCTION_BLOCK\n",
+        "FUNCTION_BLOCK Acc\nVAR_INPUT d : {k}; END_VAR\nVAR_OUTPUT q : {k}; END_VAR\nVAR_IN_OUT io : {k}; END_VAR\nVAR s : {k}; END_VAR\nVAR_TEMP tt : {k} := {tt_init}; ta : ARRAY[0..2] OF {k}; END_VAR\nta[1] := d;\ns := (s + ta[1]) MOD {m};\nq := s + tt;\nio := (io + {one}) MOD {m};\nEND_FUNCTION_BLOCK\n",
         one = lit(1),
         m = lit(50)
     );
@@ -131,15 +138,24 @@ pub fn frames_program(rng: &mut Rng) -> (String, Vec<(String, String)>) {
     // a function with a local array, an initialiser that reads a parameter, an output and an in-out
     let _ = writeln!(
         src,
-        "FUNCTION Fout : {k}\nVAR_INPUT a : {k}; END_VAR\nVAR_OUTPUT o : {k}; END_VAR\nVAR_IN_OUT m : {k}; END_VAR\nVAR loc : ARRAY[0..2] OF {k}; acc : {k} := a + {one}; END_VAR\nloc[0] := a;\nloc[2] := acc;\no := loc[0] + loc[2];\nm := (m + {one}) MOD {md};\nFout := loc[2];\nEND_FUNCTION\n",
+        "FUNCTION Fout : {k}\nVAR_INPUT a : {k}; END_VAR\nVAR_OUTPUT o : {k}; END_VAR\nVAR_IN_OUT m : {k}; END_VAR\nVAR loc : ARRAY[0..2] OF {k}; acc : {k} := {acc_init}; END_VAR\nloc[0] := a;\nloc[2] := acc;\no := loc[0] + loc[2];\nm := (m + {one}) MOD {md};\nFout := loc[2];\nEND_FUNCTION\n",
         one = lit(1),
+        md = lit(50)
+    );
+    // a function whose own locals (element, field, plain name) receive the output and the in-out
+    // of the function it calls
+    let wt = *rng.pick(&["l[1]", "lp.hi", "lm"]);
+    let wt2 = *rng.pick(&["l[0]", "lp.lo", "lm2"]);
+    let _ = writeln!(
+        src,
+        "FUNCTION Fwrap : {k}\nVAR_INPUT a : {k}; END_VAR\nVAR l : ARRAY[0..1] OF {k}; lp : Pair; lm : {k}; lm2 : {k}; END_VAR\nFwrap := Fout(a := a, o => {wt}, m := {wt2});\nFwrap := (Fwrap + l[0] + l[1] + lp.lo + lp.hi + lm + lm2) MOD {md};\nEND_FUNCTION\n",
         md = lit(50)
     );
     let _ = writeln!(
         src,
-        "PROGRAM P\nVAR fb1 : Acc; fb2 : Acc; ou : Outer; r : {k}; r2 : {k}; hist : ARRAY[0..2] OF {k}; pv : Pair; ix : {k} := {one}; END_VAR\nVAR_TEMP t : ARRAY[0..2] OF {k}; tp : Pair; tmp : {k}; tq : {k} := {three}; END_VAR",
+        "PROGRAM P\nVAR fb1 : Acc; fb2 : Acc; ou : Outer; r : {k}; r2 : {k}; hist : ARRAY[0..2] OF {k}; pv : Pair; ix : {k} := {one}; dz : {k} := {two}; END_VAR\nVAR_TEMP t : ARRAY[0..2] OF {k}; tp : Pair; tmp : {k}; tq : {k} := {tq_init}; END_VAR",
         one = lit(1),
-        three = lit(3)
+        two = lit(2)
     );
     let lvalues = [
         "r", "r2", "hist[0]", "hist[2]", "hist[ix]", "pv.lo", "pv.hi", "t[0]", "t[1]", "t[ix]", "tp.lo", "tp.hi", "tmp", "tq",
@@ -154,7 +170,10 @@ pub fn frames_program(rng: &mut Rng) -> (String, Vec<(String, String)>) {
         let rd1 = *rng.pick(&lvalues);
         let rd2 = *rng.pick(&lvalues);
         let c = lit(1 + rng.below(9));
-        match rng.below(6) {
+        match rng.below(7) {
+            6 => {
+                let _ = writeln!(src, "{t1} := Fwrap(a := {c});");
+            }
             0 => {
                 let fb = if rng.bool() { "fb1" } else { "fb2" };
                 let _ = writeln!(src, "{fb}(d := {c}, q => {t1}, io := {t2});");
@@ -177,9 +196,15 @@ pub fn frames_program(rng: &mut Rng) -> (String, Vec<(String, String)>) {
             }
         }
     }
-    let _ = writeln!(src, "r2 := (r2 + t[0] + t[1] + t[2] + tp.lo + tp.hi + tmp + tq) MOD {};\nEND_PROGRAM", lit(50));
+    let _ = writeln!(
+        src,
+        "r2 := (r2 + t[0] + t[1] + t[2] + tp.lo + tp.hi + tmp + tq) MOD {};\nIF dz > {} THEN\n  dz := dz - {};\nEND_IF;\nEND_PROGRAM",
+        lit(50),
+        lit(0),
+        lit(1)
+    );
     let mut decls: Vec<(String, String)> = Vec::new();
-    for s in ["r", "r2", "hist[0]", "hist[1]", "hist[2]", "pv.lo", "pv.hi", "ix"] {
+    for s in ["r", "r2", "hist[0]", "hist[1]", "hist[2]", "pv.lo", "pv.hi", "ix", "dz"] {
         decls.push((format!("P.{s}"), tag.to_string()));
     }
     for fb in ["fb1", "fb2", "ou.inner"] {
